@@ -119,9 +119,22 @@ where
             //   "Messages carried by UDP are restricted to 512 bytes (not
             //    counting the IP or UDP headers).  Longer messages are
             //    truncated and the TC bit is set in the header."
-            let max_response_size = ctx
-                .max_response_size_hint()
-                .unwrap_or(MINIMUM_RESPONSE_BYTE_LEN);
+            //
+            // https://datatracker.ietf.org/doc/html/rfc6891#section-7
+            //   "Lack of presence of an OPT record in a request MUST be taken
+            //    as an indication that the requestor does not implement any
+            //    part of this specification ..."
+            //
+            // The transport supplied hint is the size the server is willing
+            // to send to a requestor that announced, via EDNS, that it can
+            // receive more than 512 bytes. A requestor that sent no OPT
+            // record has not done so and is held to the RFC 1035 limit.
+            let max_response_size = if request.message().opt().is_some() {
+                ctx.max_response_size_hint()
+                    .unwrap_or(MINIMUM_RESPONSE_BYTE_LEN)
+            } else {
+                MINIMUM_RESPONSE_BYTE_LEN
+            };
             let max_response_size = max_response_size as usize;
             let response_len = response.as_slice().len();
 
